@@ -55,8 +55,8 @@ impl Prop for C10 {
 
     fn budget(tier: Tier) -> Budget {
         match tier {
-            Tier::Quick => Budget { cases: 8000, shards: 16 },
-            Tier::Thorough => Budget { cases: 400_000, shards: 16 },
+            Tier::Quick => Budget { cases: 80000, shards: 16 },
+            Tier::Thorough => Budget { cases: 640000, shards: 16 },
         }
     }
 
